@@ -163,8 +163,11 @@ def mk(path, shape):
         return BoolUnknown(path)
     if k == 'int':
         return IntUnknown(path)
-    if k == 'list':
-        return ListOf(('shape', shape[1], path + '[]'), path)
+    if k in ('list', 'list+'):
+        lo = ListOf(('shape', shape[1], path + '[]'), path)
+        if k == 'list+':
+            lo.nonempty = True
+        return lo
     if k == 'dict':
         return Obj(path, shape)
     if k in ('opt', 'tuple', 'rec'):
@@ -357,9 +360,13 @@ class Interp:
             lst = self.ev(g.iter, env)
             if not isinstance(lst, ListOf):
                 raise _nt(e, '(comprehension over non-list)')
-            env2 = dict(env)
-            self.bind(g.target, self.item_of(lst), env2)
-            return ListOf(self.ev(e.elt, env2), lst.src)
+            def one():
+                env2 = dict(env)
+                self.bind(g.target, self.item_of(lst), env2)
+                return self.ev(e.elt, env2)
+            lo = ListOf(self.alts(one), lst.src)
+            lo.nonempty = getattr(lst, 'nonempty', False)
+            return lo
         if isinstance(e, ast.List):
             if not e.elts:
                 return ListOf(None, 'local')
@@ -422,7 +429,7 @@ class Interp:
                     raise _nt(e, '(join over non-list)')
                 if arg.item is None:
                     return Lit('')
-                return Join(sep, self.as_str(self.item_of(arg), e), arg.src, 0)
+                return Join(sep, self.as_str(self.item_of(arg), e), arg.src, 1 if getattr(arg, 'nonempty', False) else 0)
             if f.attr == 'get' and e.args:
                 base = self.resolve(self.ev(f.value, env))
                 r = self.field(base, ast.literal_eval(e.args[0]), e)
@@ -471,7 +478,9 @@ class Interp:
                 lst = self.ev(e.args[1], env)
                 if not isinstance(lst, ListOf):
                     raise _nt(e, '(map over non-list)')
-                return ListOf(self.call(fn, [self.item_of(lst)], e), lst.src)
+                lo = ListOf(self.alts(lambda: self.as_str(self.call(fn, [self.item_of(lst)], e), e)), lst.src)
+                lo.nonempty = getattr(lst, 'nonempty', False)
+                return lo
             if f.id == 'str' and len(e.args) == 1:
                 return self.as_str(self.ev(e.args[0], env), e)
             if f.id in ('list', 'tuple', 'sorted', 'iter') and len(e.args) == 1 and not e.keywords:
@@ -708,6 +717,21 @@ class Interp:
             raise _nt(st, '(call statement)')
         raise _nt(st)
 
+    def alts(self, fn):
+        """value of fn() as an alternation over the decisions first asked inside it (per-item choices)"""
+        res = self.local_worlds(fn)
+        if not res:
+            raise Raised('every item raises')
+        out = []
+        for v, _ in res:
+            if not any(repr(v) == repr(o) for o in out):
+                out.append(v)
+        if len(out) == 1:
+            return out[0]
+        if all(isinstance(o, T) for o in out):
+            return Alt(out)
+        raise AnalysisError('per-item alternatives are not strings')
+
     def local_worlds(self, fn):
         """run fn() under every combination of the decisions that are first asked inside it;
         returns [(result, decisions)] of the non-raising combinations"""
@@ -726,7 +750,8 @@ class Interp:
             try:
                 results.append((fn(), extra))
             except World as q:
-                if q.args[0] in saved:
+                if q.args[0] in saved or q.args[0][0] == 'present':
+                    # presence of optional inputs is decided globally (one shape per analysis world)
                     self.dec = saved
                     raise
                 stack.append({**extra, q.args[0]: True})
@@ -812,6 +837,7 @@ class Interp:
                     raise _nt(st, '(several appends per iteration)')
             if alts:
                 env[a] = ListOf(alts[0] if len(alts) == 1 else Alt(alts), lst.src)
+                env[a].nonempty = nonempty and all(len(out[a]) == 1 for out, _ in res)
         return None
 
 
@@ -1060,7 +1086,9 @@ class TBuilder:
                         if mask >> sym & 1:
                             out.add(n)
             return closure(out) if out else frozenset()
-        return rx._determinise(self.alpha, self.markers, closure({s0}), step, lambda S: acc in S)
+        masks = {m for trs in self.tr for (m, _n) in trs}
+        classes = rx.split_classes([self.alpha.full], masks)
+        return rx._determinise(self.alpha, self.markers, closure({s0}), step, lambda S: acc in S, classes)
 
 
 def rstrip_lang(lang, chars):
@@ -1079,7 +1107,8 @@ def rstrip_lang(lang, chars):
     def step(S, sym):
         q, endc = S
         return (lang.trans[q][sym], sym in cs)
-    return rx.from_function(alpha, [], (0, False), step, lambda S: S[0] in fin and not S[1])
+    return rx.from_function(alpha, [], (0, False), step, lambda S: S[0] in fin and not S[1],
+                            rx.split_classes(lang.classes(), [1 << c for c in cs]))
 
 
 def template_langs(term, alpha, slot_lang, tags, groups):
